@@ -1,1 +1,57 @@
-import TT.Model.Wire
+/-
+  C16 — Capturing never panics and is independent of other layers in the stack.
+
+  Model after the `fix:` commits 8b55e18 (one captured id per layer in the shared span extension)
+  and d76da7b (follows-from towards a closed span is ignored). `wfProgS` is well-formedness as in
+  C12 except that the *target* of a follows-from may be a handle that was already dropped (the
+  tracing API takes a bare `Id` there).
+-/
+import TT.Model.Capture
+import TT.Props.C12
+
+namespace TT
+
+/-- As `wfStep`, but `fol a b` only needs `a` live; `b` may be stale (dropped, possibly closed). -/
+def wfStepS (sites : List CallSite) (st : WfSt) : POp → Option WfSt
+  | .fol a b => if st.liveH a && decide (b < st.live.length) then some st else none
+  | op => wfStep sites st op
+
+def wfFromS (sites : List CallSite) (st : WfSt) : List POp → Bool
+  | [] => true
+  | op :: ops => match wfStepS sites st op with
+    | some st' => wfFromS sites st' ops
+    | none => false
+
+def wfProgS (sites : List CallSite) (ops : List POp) : Bool := wfFromS sites {} ops
+
+/-- No callback of any capture layer panics (so no storage lock is poisoned), for every program
+    the API permits — stale follows-from targets, records and enters on filtered-out spans
+    included —, every stack of layers and filters. -/
+theorem C16_no_panic (filters : List LFilter) (global : Option Nat) (sites : List CallSite) (ops : List POp)
+    (hwf : wfProgS sites ops = true) :
+    (captureRun filters global sites ops).panicked = false := by
+  sorry
+
+/-- What a layer captures depends only on the trace and its own filter: in any stack it stores
+    exactly what it stores when it is the only capture layer. (Pass-through layers do not appear
+    in the model at all: they cannot influence it; the harness runs them for real.) -/
+theorem C16_independent (filters : List LFilter) (global : Option Nat) (sites : List CallSite) (ops : List POp)
+    (hwf : wfProgS sites ops = true) (i : Nat) (hi : i < filters.length) :
+    (captureRun filters global sites ops).storages.getD i {}
+      = (captureRun [filters.getD i .all] global sites ops).storages.getD 0 {} := by
+  sorry
+
+/-- Non-vacuity: three layers with different filters, a stale follows-from target. -/
+example :
+    let s : CallSite := ⟨.span, [115], [97], .info, none, none, none, []⟩
+    let d : CallSite := ⟨.span, [100], [97], .debug, none, none, none, []⟩
+    let sites := [s, d]
+    let ops : List POp := [.new 0 .ctx [], .new 1 (.handle 0) [], .drp 1, .fol 0 1, .ent 0, .new 1 .ctx [], .fol 2 0, .ext 0]
+    let fs : List LFilter := [.all, .level 2, .nameNot [115]]
+    wfProgS sites ops = true ∧ wfProg sites ops = false ∧
+    (captureRun fs none sites ops).panicked = false ∧
+    ((captureRun fs none sites ops).storages.map (·.spans.length)) = [3, 1, 2] ∧
+    (captureRun fs none sites ops).storages.getD 2 {} = (captureRun [.nameNot [115]] none sites ops).storages.getD 0 {} := by
+  decide
+
+end TT
